@@ -55,6 +55,9 @@ type rlEnv struct {
 
 func (e *rlEnv) newID() string { e.n++; return fmt.Sprintf("%03d", e.n) }
 
+// peekID returns the id the k-th call from now will get (k = 1: the next one).
+func (e *rlEnv) peekID(k int) string { return fmt.Sprintf("%03d", e.n+k) }
+
 // key: region-selecting prefix + call id, so that the servers' log identifies the call
 func (e *rlEnv) goGet(prefix string) *rlCall {
 	cc := &rlCall{id: e.newID(), kind: "get"}
@@ -323,6 +326,10 @@ func TestVerifRequestLoop(t *testing.T) {
 		for _, cc := range e.calls {
 			if !cc.returned {
 				rep.bad("request-stranded", "%s: %s %s is still blocked 10 virtual minutes after the cluster became stable", name, cc.kind, cc.id)
+			} else if cc.err != nil && strings.Contains(cc.err.Error(), "WrongRegionException") {
+				// the simulated servers answer so only when the row is outside the region NAMED IN THE REQUEST: no fault of the
+				// cluster makes that a "real" error - the client sent the request to a region that does not own the row
+				rep.bad("request-misrouted", "%s: %s %s failed with %v: it was sent to a region that does not contain its row", name, cc.kind, cc.id, cc.err)
 			}
 		}
 		e.mu.Unlock()
@@ -428,6 +435,26 @@ func TestVerifRequestLoop(t *testing.T) {
 		}
 		time.Sleep(20 * time.Millisecond)
 		e.cl.Split(regs[0], []byte("b"), "rs2", "rs3")
+		finish(e, name)
+	})
+	synctest.Test(t, func(t *testing.T) {
+		// after a split only the first daughter gets into the cache (through the re-establisher of the parent); the second
+		// one is found by the first request beyond the first daughter's stop key - including a request for exactly that key
+		name := "W3b/request-for-exactly-the-split-key-after-a-split"
+		e := newRLEnv(1, 2)
+		regs := e.cl.OnlineRegions("t")
+		e.goGet("a")
+		time.Sleep(time.Second)
+		synctest.Wait()
+		splitKey := "b#" + e.peekID(2) // the key the second request from now will ask for
+		e.cl.Split(regs[0], []byte(splitKey), "rs2", "rs3")
+		e.goGet("a") // meets "not serving", the parent is re-established as its first daughter
+		time.Sleep(5 * time.Second)
+		synctest.Wait()
+		e.goGet("b") // row == stop key of the cached first daughter == start key of the unknown second one
+		time.Sleep(5 * time.Second)
+		synctest.Wait()
+		e.goPut("b")
 		finish(e, name)
 	})
 
